@@ -55,8 +55,8 @@ def run(ctx):
                 if isinstance(c, ast.Call) and isinstance(c.func, ast.Attribute):
                     if c.func.attr == "set" and is_self_attr(c.func.value, stop_attr):
                         sets = True
-                    if c.func.attr == "join" and is_self_attr(c.func.value, thread_attr):
-                        joins = True
+                    if c.func.attr == "join" and is_self_attr(c.func.value, thread_attr) and not c.args and not c.keywords:
+                        joins = True  # a join with a time limit is not a join: the thread may still be running (and writing) afterwards
                     if isinstance(c.func.value, ast.Name) and c.func.value.id == "self" and c.func.attr in methods:
                         a, b = stops_and_joins(methods[c.func.attr].node.body)
                         sets, joins = sets or a, joins or b
@@ -364,4 +364,30 @@ def run(ctx):
                     r.fail(init_, c, norm(c.func) + " before self._io is set", "%s is called before self._io is assigned" % norm(c.func))
     if n9 == 0:
         r.vacuous_ok = True
+    # ---------------------------------------------------------------- R10
+    r = ctx.rule("C19-R10", "SENTINEL", "'the end frame shows the end message': finish() shows the message it was given, whatever it is - the store of the message is not under a "
+                 "truthiness test of the parameter (the empty message is a message), and every wait for the spinner thread is without a time limit", reference=2)
+    fin_m = methods.get("finish")
+    ctx.require(fin_m is not None, "ProgressIndicator.finish missing")
+    fcfg_ = ctx.cfg(fin_m)
+    prm_ = [a for a in fin_m.params if a != "self"]
+    stores_ = [n for n in fcfg_.nodes if n.kind == "stmt" and isinstance(n.ast, ast.Assign) and isinstance(n.ast.value, ast.Name) and n.ast.value.id in prm_ and any(is_self_attr(t) and "message" in t.attr for t in n.ast.targets)]
+    if not stores_:
+        r.note("finish() does not store its message parameter directly")
+    for st in stores_:
+        var = st.ast.value.id
+        g = guarded_by(fcfg_, st, lambda e: (isinstance(e, ast.Name) and e.id == var), polarity=True)
+        if g is not None:
+            r.fail(fin_m, st.ast, "%s under `if %s`" % (norm(st.ast), var), "%s keeps the previous message when the end message is falsy: finish('') / auto(start, '') leave the start message on the last frame" % fin_m.short)
+        else:
+            r.ok("%s: %s whatever the message is" % (fin_m.short, norm(st.ast)))
+    for name_, m_ in sorted(methods.items()):
+        for c in q.calls(m_):
+            if isinstance(c.func, ast.Attribute) and c.func.attr == "join" and is_self_attr(c.func.value, thread_attr):
+                if c.args or c.keywords:
+                    r.fail(m_, c, "%s with a time limit" % norm(c), "%s waits for the spinner thread for a limited time only: when the spinner is held up in a write the caller goes on while the spinner is still "
+                           "alive and still writing frames" % m_.short)
+                else:
+                    r.ok("%s: %s waits without limit" % (m_.short, norm(c)))
+
     return ctx.results
